@@ -37,8 +37,11 @@ class Model:
         sim.dt = 1e-3
         if cfg["tree"]:
             sim.configure_box(100.)
-            sim.gravity = "tree"
-            sim.integrator = "leapfrog"
+            if cfg.get("hybrid_tree"):
+                sim.collision = "tree"          # a hybrid integrator (forces order-preserving removal) together with a tree
+            else:
+                sim.gravity = "tree"
+                sim.integrator = "leapfrog"
         ref = {"lst": [], "pending": [], "N_active": -1, "nuid": 0, "steps": 0}
         for k in range(cfg.get("prefill", 0)):
             self._add(cfg, sim, ref, 1000 + k, front="c")
@@ -87,6 +90,21 @@ class Model:
             uid = int(round(p.r * 2. ** 20)) - 1
             out.append([uid, p._hash, p.y != p.y])
         return out
+
+    def dcrit(self, sim):
+        """({uid: dcrit}, {index: dcrit}) when MERCURIUS has computed its switching radii, else None"""
+        if sim.integrator != "mercurius":
+            return None
+        na = sim.ri_mercurius._N_allocated_dcrit
+        if not na or not sim.ri_mercurius._dcrit:
+            return None
+        byuid, byidx = {}, {}
+        for i in range(min(sim.N, na)):
+            p = sim._particles[i]
+            uid = int(round(p.r * 2. ** 20)) - 1
+            byuid[uid] = sim.ri_mercurius._dcrit[i]
+            byidx[i] = sim.ri_mercurius._dcrit[i]
+        return byuid, byidx
 
     def lookup_table(self, sim):
         n = sim.N_lookup
@@ -137,7 +155,7 @@ class Model:
                     o.append(["set_N_active", v])
         if cfg["tree"]:
             o.append(["update_tree"])
-        elif not pre:
+        if (not cfg["tree"] or cfg.get("hybrid_tree")) and not pre:
             lst = ref["lst"]
             if len(lst) >= 2 and lst[0][0] == 0 and ref["steps"] < 2:
                 o.append(["step"])
@@ -151,8 +169,8 @@ class Model:
         kind = op[0]
         lst = ref["lst"]
         tree = cfg["tree"]
-        forced = cfg["integrator"] in ("mercurius", "trace") and not tree
-        tag = "%s/%s%s" % (front, "tree" if tree else cfg["integrator"], "/prefill" if cfg.get("prefill") else "")
+        forced = cfg["integrator"] in ("mercurius", "trace") and (not tree or cfg.get("hybrid_tree"))
+        tag = "%s/%s%s" % (front, ("tree+" + cfg["integrator"] if cfg.get("hybrid_tree") else "tree") if tree else cfg["integrator"], "/prefill" if cfg.get("prefill") else "")
 
         def fail_expected(call, why):
             """call() must report failure and leave the simulation unchanged"""
@@ -229,8 +247,17 @@ class Model:
             else:
                 before = self.observe(sim)
                 nact = sim.N_active
+                dcrit_before = self.dcrit(sim)
                 ok = call()
                 after = self.observe(sim)
+                if ok and dcrit_before is not None and not tree:
+                    # the per-particle switching radii of MERCURIUS must follow their particles
+                    dcrit_after = self.dcrit(sim)
+                    for j, (u, h, fl) in enumerate(after):
+                        if u in dcrit_before[0] and dcrit_after is not None and j in dcrit_after[1] and dcrit_after[1][j] != dcrit_before[0][u]:
+                            V.append(("%s:mercurius-dcrit" % kind, "%s %s under MERCURIUS after a step: particle uid %d now at index %d has dcrit %r, its own value was %r [%s]" % (
+                                kind, op[1:], u, j, dcrit_after[1][j], dcrit_before[0][u], tag)))
+                            break
                 if not ok:
                     V.append(("%s:valid-request-failed" % kind, "%s %s failed although the request is valid; list %s [%s]" % (kind, op[1:], before, tag)))
                     self._resync(sim, ref)
@@ -337,6 +364,19 @@ class Model:
             if (sorted(got) != sorted(want)) if tree else (got != want):
                 V.append(("%s:list-mismatch" % kind, "%s %s: real list %s differs from model %s [%s]" % (kind, op[1:], got, want, tag)))
                 self._resync(sim, ref)
+        if front == "py":
+            n = sim.N
+            base = ctypes.addressof(sim._particles.contents) if (n and sim._particles) else 0
+            for k in (-n - 2, -n - 1, -n, -1, 0, n - 1, n, n + 1):
+                try:
+                    q = sim.particles[k]
+                    got = (ctypes.addressof(q) - base) // rb.PART_SIZE
+                except Exception:
+                    got = None
+                want = (k % n) if (n and -n <= k < n) else None
+                if got != want:
+                    V.append(("py-index:%s" % ("out-of-range-accepted" if want is None else "wrong-slot"), "sim.particles[%d] with N=%d gives slot %s, expected %s after %s [%s]" % (k, n, got, "an exception" if want is None else want, op, tag)))
+                    break
         if sim.N > sim.N_allocated:
             V.append(("N>N_allocated", "N=%d exceeds N_allocated=%d after %s [%s]" % (sim.N, sim.N_allocated, op, tag)))
         return V
@@ -354,6 +394,8 @@ def configs(tier):
         cfgs.append({"integrator": "ias15", "tree": True, "front": front})
         cfgs.append({"integrator": "mercurius", "tree": False, "front": front})
         cfgs.append({"integrator": "trace", "tree": False, "front": front})
+    cfgs.append({"integrator": "mercurius", "tree": True, "hybrid_tree": True, "front": "c"})
+    cfgs.append({"integrator": "trace", "tree": True, "hybrid_tree": True, "front": "py"})
     cfgs.append({"integrator": "ias15", "tree": False, "front": "c", "prefill": 127})
     cfgs.append({"integrator": "ias15", "tree": False, "front": "py", "prefill": 127})
     return cfgs
